@@ -355,6 +355,16 @@ def restricted_evaluator(
                 },
             ) from None
 
+        # the globals entry which denies access to the builtins must not itself
+        # be visible as a name
+        for node in ast.walk(expr_node):
+            if (
+                isinstance(node, ast.Name)
+                and node.id == '__builtins__'
+                and '__builtins__' not in variables
+            ):
+                raise NameError("name '__builtins__' is not defined")
+
         # run the expresion
         # Note: this may raise runtime errors
         return eval(  # nosec
